@@ -32,6 +32,17 @@ class PathTimeout(BaseException):
     (non-terminating library code never comes back to the engine on its own)."""
 
 
+class PathCost(PathTimeout):
+    """Raised by the engine itself where the code under test asks for big-integer arithmetic whose
+    operand size is chosen by a symbolic (peer-controlled) value that the path condition lets
+    exceed COST_LIMIT_BITS: `1 << n` costs time and memory linear in n, i.e. exponential in the
+    number of octets that encode n.  Treated like a path that does not return: the inputs are
+    confirmed on the real package in a subprocess under an address-space limit."""
+
+
+COST_LIMIT_BITS = 1 << 20
+
+
 class Decision:
     __slots__ = ("outcome", "forced", "flipped", "value")
 
@@ -109,6 +120,7 @@ class Engine:
         self.cross_faults = []
         self.path_started = None
         self.timeouts = []
+        self.costs = []  # inputs of paths ended by PathCost
         self.partial = None  # set by sx/hunt.py: an unmodelled operation was explored over a palette only
 
     # ------------------------------------------------------------------ fresh names
@@ -346,14 +358,15 @@ class Engine:
                     except PathAbort:
                         status = "abort"
                         self.stats.aborted += 1
-                    except PathTimeout:
+                    except PathTimeout as pt:
                         # the code under test did not come back: keep the inputs of this path
                         self.path_started = None
                         status = "timeout"
+                        dest = self.costs if isinstance(pt, PathCost) else self.timeouts
                         try:
-                            self.timeouts.append(self.eval_inputs(self.get_model()))
+                            dest.append(self.eval_inputs(self.get_model()))
                         except BaseException:  # noqa: BLE001
-                            self.timeouts.append(None)
+                            dest.append(None)
                     self.stats.paths += 1
                     if status != "timeout":
                         if self.pos != len(self.trail):
